@@ -408,6 +408,22 @@ Example C03_abandoned_example :
 Proof. exact ScansBodyP.ex_break_facts. Qed.
 Print Assumptions C03_abandoned_example.
 
+(* boundary of the nesting guarantee (C03_nested is about inner generators RUN TO EXHAUSTION): a break in the inner
+   loop leaves the inner key in _selection, which the outer generator neither pops nor saves - the next outer item is
+   intersected with it (here: empty, IndexError), and with a single outer item the inner item alone stays selected
+   after the outer generator is exhausted.  Outside the domain of the property; the model follows the code and the
+   real generators are compared with it on such loops (wire_35). *)
+Example C03_inner_break_example :
+  iterate_nested_break ex_O WCompscans WScans 0 (init (so ex_O)) = Err EFail
+  /\ iterate_nested_break ex_O WScans WCompscans 0 (init (so ex_O)) = Err EFail
+  /\ (exists s0 ys sf, select (so ex_O) (init (so ex_O)) [("compscans"%string, VScans [SIdx 1])] = Ok s0
+       /\ positions (tk s0) = [7; 8; 9; 10; 11]
+       /\ iterate_nested_break ex_O WCompscans WScans 0 s0 = Ok (ys, sf)
+       /\ map ScansBodyP.tsummary ys = [(1, [7; 8; 9; 10; 11])] /\ positions (tk sf) = [7; 8]
+       /\ lookup "scans" (sel sf) = Some (VScans [SIdx 3])).
+Proof. exact ScansBodyP.ex_inner_break_facts. Qed.
+Print Assumptions C03_inner_break_example.
+
 (* ---------------------------------------------------------------------------------------------------------------
    CONCATENATED DATA SETS (katdal/concatdata.py:ConcatenatedDataSet; Model/ScansConcat.v, Proofs/ScansConcatP.v).
    A ConcatenatedDataSet inherits select(), scans() and compscans() from DataSet, so everything above applies to it
